@@ -1362,6 +1362,14 @@ def g_linked_copy(self):
             root = self.U.top(x)
             if not self.room(len(self.U.subtree(root))):
                 return None
+            if self.chance(0.3):
+                # the linking Section alone, without its children (what export_leaf makes its
+                # chain of): the copy is merged with nothing of the original either
+                if self.chance(0.5):
+                    return {"op": "clone", "x": self.ref(x), "children": False,
+                            "keep_id": self.chance(0.3)}
+                leaf = self.pick(list(x.sections) + list(x.properties)) or x
+                return {"op": "export_leaf", "x": self.ref(leaf)}
             return {"op": "clone", "x": self.ref(root if self.chance(0.6) else x), "children": True,
                     "keep_id": self.chance(0.3)}
         return {"op": "clean", "x": self.cref(self.U.top(x) if self.chance(0.6) else x)}
